@@ -234,7 +234,12 @@ pub fn eval_proof<'a>(rep: &mut Report, w: &World, p: &PProof, label: impl Into<
     match verdict {
         Verdict::Accepted => rep.outcome("mkproof:accepted"),
         Verdict::OtherRoot => rep.outcome("mkproof:verifies-for-another-root(=not accepted)"),
-        Verdict::Rejected => rep.outcome("mkproof:rejected"),
+        Verdict::Rejected => {
+            if !label.is_honest() && w.n() == 5 && rep.extras.get("mkproof_sample_rejected_mutant").is_none() {
+                rep.extra("mkproof_sample_rejected_mutant", json!({"made_by": label.to_string(), "n": w.n(), "proof": p.to_json()}));
+            }
+            rep.outcome("mkproof:rejected")
+        }
         Verdict::Panicked => {
             rep.add_extra("panics_observed", 1);
             rep.outcome("mkproof:panicked(=not accepted)")
@@ -304,7 +309,7 @@ pub fn eval_proof<'a>(rep: &mut Report, w: &World, p: &PProof, label: impl Into<
             );
         }
     }
-    if all_true && !label.is_honest() && rep.extras.get("mkproof_sample_accepted_mutant").is_none() {
+    if all_true && !label.is_honest() && w.n() == 5 && rep.extras.get("mkproof_sample_accepted_mutant").is_none() {
         rep.extra("mkproof_sample_accepted_mutant", json!({"made_by": label.to_string(), "n": w.n(), "proof": p.to_json()}));
     }
     verdict
@@ -371,7 +376,7 @@ pub fn honest_sweep(n: usize) -> Report {
                 Some(back) if back == real => {}
                 _ => bad(&mut rep, "C09/mkproof:json-round-trip-changes-proof", format!("proof for n={n} {order:?} does not survive JSON")),
             }
-            if rep.samples.is_empty() && idx.len() == 2 && n >= 5 {
+            if n == 5 && order == [1, 3] {
                 rep.sample(json!({"part": "mkproof", "kind": "honest proof", "n": n, "leaves": order, "proof": p.to_json()}));
             }
         }
